@@ -72,7 +72,7 @@ func TestCheck(t *testing.T) {
 		policySwapUnderLoad(r)
 		endToEnd(r)
 		r.Require(r.Counter("field_cases") > 1000 && r.Counter("rule_cases") > 1000, "too few cases evaluated")
-		r.Require(r.Counter("e2e_impersonated_where_the_impersonator_would_be_routed_differently") >= int64(r.N(40, 300)), "too few allowed impersonations whose impersonator would be routed differently")
+		r.Require(r.Counter("e2e_impersonated_where_the_impersonator_would_be_routed_differently") >= int64(r.N(20, 150)), "too few allowed impersonations whose impersonator would be routed differently")
 		r.Require(r.Counter("e2e_wide_shapes") >= int64(r.N(1200, 20000)), "too few end-to-end requests with request lines outside the basic templates")
 	})
 }
